@@ -6,8 +6,8 @@ package defaultgrouper
 // ---- assumed models of k8s library accessors (nested map[string]interface{} walk, no body loaded):
 // within one reconcile the owner object is not modified, so name and UID are functions of the object.
 //@ declare ownerName(o *unstructured.Unstructured) string
-//@ declare ownerUID(o *unstructured.Unstructured) string
-//@ declare pgNameOf(name string, uid string) string
+//@ import types "k8s.io/apimachinery/pkg/types"
+//@ declare ownerUID(o *unstructured.Unstructured) types.UID
 
 //@ func (*k8s.io/apimachinery/pkg/apis/meta/v1/unstructured.Unstructured).GetName
 //@   trusted
@@ -30,5 +30,49 @@ package defaultgrouper
 //@   props C18
 //@   requires topOwner != nil
 //@   pure
-//@   ensures [nameOfOwnerOnly] result == pgNameOf(ownerName(topOwner), ownerUID(topOwner))
+//@   ensures [nameOfOwnerOnly] result == fmt.Sprintf("%s-%s-%s", constants.PodGroupNamePrefix, ownerName(topOwner), ownerUID(topOwner))
+//@ end
+
+//@ declare ownerLabels(o *unstructured.Unstructured) map[string]string
+
+//@ func (*k8s.io/apimachinery/pkg/apis/meta/v1/unstructured.Unstructured).GetLabels
+//@   trusted
+//@   note library accessor (NestedStringMap copy of metadata.labels), body not loaded; the returned map is treated as a function of the object, read-only use
+//@   pure
+//@   ensures result == ownerLabels(u)
+//@ end
+
+//@ func (*k8s.io/apimachinery/pkg/apis/meta/v1.ObjectMeta).GetLabels
+//@   trusted
+//@   note library accessor, body not loaded: returns the Labels field
+//@   pure
+//@   ensures result == meta.Labels
+//@ end
+
+// Property C18: the pod group's labels "depend only on the owner chain and pod template": they are the
+// top owner's labels, plus the pod's user label when the owner has none. Nothing else of the pod matters.
+//@ func (*DefaultGrouper).CalcPodGroupLabels
+//@   props C18
+//@   requires topOwner != nil && pod != nil
+//@   fresh
+//@   ensures [ownerLabels] forall k string :: k != constants.UserLabelKey ==> ((k in result) == (k in ownerLabels(topOwner))) && result[k] == ownerLabels(topOwner)[k]
+//@   ensures [userLabelKey] (constants.UserLabelKey in result) == ((constants.UserLabelKey in ownerLabels(topOwner)) || (constants.UserLabelKey in pod.Labels))
+//@   ensures [userLabelValue] result[constants.UserLabelKey] == ite(constants.UserLabelKey in ownerLabels(topOwner), ownerLabels(topOwner)[constants.UserLabelKey], pod.Labels[constants.UserLabelKey])
+//@ end
+
+// Property C18: the queue "depend[s] only on the owner chain and pod template": the owner's queue label
+// wins, then the pod's queue label, then the project label (owner first, then pod; suffixed with the
+// pod's node-pool label if present), else the default queue. No other input.
+//@ define projectOf(o *unstructured.Unstructured, pod *v1.Pod) string = ite(constants.ProjectLabelKey in ownerLabels(o), ownerLabels(o)[constants.ProjectLabelKey], pod.Labels[constants.ProjectLabelKey])
+//@ define noQueueLabel(dg *DefaultGrouper, o *unstructured.Unstructured, pod *v1.Pod) bool = !(dg.queueLabelKey in ownerLabels(o)) && !(dg.queueLabelKey in pod.Labels)
+//@ define projectPool(dg *DefaultGrouper, o *unstructured.Unstructured, pod *v1.Pod) string = fmt.Sprintf("%s-%s", projectOf(o, pod), pod.Labels[dg.nodePoolLabelKey])
+//@ func (*DefaultGrouper).CalcPodGroupQueue
+//@   props C18
+//@   requires dg != nil && topOwner != nil && pod != nil
+//@   pure
+//@   ensures [ownerQueueLabelWins] (dg.queueLabelKey in ownerLabels(topOwner)) ==> result == ownerLabels(topOwner)[dg.queueLabelKey]
+//@   ensures [podQueueLabelNext] !(dg.queueLabelKey in ownerLabels(topOwner)) && (dg.queueLabelKey in pod.Labels) ==> result == pod.Labels[dg.queueLabelKey]
+//@   ensures [noProjectDefault] noQueueLabel(dg, topOwner, pod) && projectOf(topOwner, pod) == "" ==> result == constants.DefaultQueueName
+//@   ensures [projectAlone] noQueueLabel(dg, topOwner, pod) && projectOf(topOwner, pod) != "" && !(dg.nodePoolLabelKey in pod.Labels) ==> result == projectOf(topOwner, pod)
+//@   ensures [projectWithNodePool] noQueueLabel(dg, topOwner, pod) && projectOf(topOwner, pod) != "" && (dg.nodePoolLabelKey in pod.Labels) ==> result == ite(projectPool(dg, topOwner, pod) == "", constants.DefaultQueueName, projectPool(dg, topOwner, pod))
 //@ end
